@@ -1,9 +1,119 @@
-(* C04 (placeholder while the proofs are being moved in) *)
-From Coq Require Import ZArith QArith Qcanon List Bool.
-From Catii Require Import Cube.Dim Cube.Direct Cube.FFuncs Cube.XCube Cube.AggCheck.
+(* C04 - the missing-cell rule and the three missing-value report formats agree.
+
+   Models as in C03 (Cube/FFuncs.v, Cube/XCube.v): integer valid / missing counters carried beside the
+   values and differenced like them, output_is_missing = (valid == 0) | (missing != 0) resp. valid == 0, the
+   mean's test on the WEIGHTED valid count; the three formats are computed from the (value, missing) cells by
+   Direct.report the way adjust_zeros + return_missing_as do; valid_count(..., return_missing_as=0) is the
+   documented shortcut (one region, no missing marks), stated separately.
+   `missing_rule` (Cube/Direct.v) is the rule of the property text:
+       rows = []  \/  (if ignore then ALL rows missing else SOME row missing)  \/  (mean /\ valid weights sum to 0)
+   where a row is missing when its fact value or its weight is.  Hypotheses as in C03. *)
+From Coq Require Import ZArith QArith Qcanon List Bool Lia.
+From Catii Require Import Base.Cases Base.Sorted Cube.Dim Cube.Walk Cube.WalkProofs Cube.Region Cube.Count Cube.CountProofs
+     Cube.Direct Cube.FFuncs Cube.XCube Cube.AggBase Cube.AggCell Cube.FFuncsProofs Cube.XCubeProofs Cube.AggProofs
+     Cube.AggCheck.
 Import ListNotations.
 Open Scope Z_scope.
-Example C04_smoke : agg_check_any (mk ASum 3 [([(1, [0; 2])], 0)] [2] false [[1; 0; 1]] [2] false
-   (FOne (MNaN [Some (q 1 2); None; Some (q 3 1)])) WNone true FmtNaN
-   (OCells [None] [(1, [Some (q 7 2)])]) (OCells [None] [(1, [Some (q 7 2)])])) = true.
+
+(* the rule itself: what the textbook cell computes is the rule of the property text *)
+Theorem C04_missing_rule_spec : forall wt fx A ign rows,
+  cell_missing wt fx A ign rows = true <-> missing_rule wt fx A ign rows.
+Proof. exact cell_missing_rule. Qed.
+Print Assumptions C04_missing_rule_spec.
+
+(* missing_rule_A, index cube: every cell inside the shape - walked or reconstructed - and every fact column *)
+Theorem C04_missing_rule_ccube : forall A N dims shape h f w ign cell,
+  0 <= N -> Forall (dim_wf N) dims -> covers shape dims -> in_shape shape cell -> agg_fact_ok A f ->
+  Forall2 (fun vm fx => snd vm = true <-> missing_rule (w_get w) fx A ign (cell_rows N dims cell))
+          (ccube_cell A N dims shape h f w ign cell) (fact_cols f).
+Proof. exact ccube_missing_rule. Qed.
+Print Assumptions C04_missing_rule_ccube.
+Theorem C04_ccube_cells : forall A N dims shape h f w ign,
+  ccube_agg N dims shape A h f w ign = map (ccube_cell A N dims shape h f w ign) (all_cells shape).
+Proof. exact ccube_agg_cells. Qed.
+Print Assumptions C04_ccube_cells.
+
+(* missing_rule_A, array cube: the call returns, and every cell (row-major) and column obeys the rule *)
+Theorem C04_missing_rule_xcube : forall A N arrs shape h f w ign,
+  xhyps N arrs shape -> agg_fact_ok A f ->
+  exists out, xcube_agg A N arrs shape h f w ign = Some out /\
+    Forall2 (fun row cell =>
+               Forall2 (fun vm fx => snd vm = true <-> missing_rule (w_get w) fx A ign (cell_rows_f N arrs cell))
+                       row (fact_cols f))
+            out (all_cells shape).
+Proof. exact xcube_missing_rule. Qed.
+Print Assumptions C04_missing_rule_xcube.
+
+(* formats_agree_A, per cell: NaN-in-place and (sentinel, False) mark exactly the missing cells; where a cell is
+   not missing all three formats carry its value; a missing cell holds NaN / (sentinel, False) / the plain value *)
+Theorem C04_formats_agree_cell : forall (vm : Qc * bool) (s v : Qc),
+  rcell_missing (report FmtNaN vm) = snd vm
+  /\ rcell_missing (report (FmtPair s) vm) = snd vm
+  /\ (snd vm = false -> report FmtNaN vm = RVal (fst vm) /\ report (FmtPair s) vm = RPair (fst vm) true
+                        /\ report (FmtPlain v) vm = RVal (fst vm))
+  /\ (snd vm = true -> report FmtNaN vm = RNaN /\ report (FmtPair s) vm = RPair s false
+                       /\ report (FmtPlain v) vm = RVal v).
+Proof. exact formats_agree_cell. Qed.
+Print Assumptions C04_formats_agree_cell.
+
+(* formats_agree_A, both cube types: whatever the format, the call reports the textbook cells in that format -
+   hence the same missing set and identical values elsewhere across the formats and across the cube types *)
+Theorem C04_formats_agree : forall A N dims shape arrs h f w ign fm,
+  0 <= N -> Forall (dim_wf N) dims -> covers shape dims -> prodZ shape <= 4294967295 -> agg_fact_ok A f ->
+  Forall2 (fun a d => same_on N a (dim_dense d)) arrs dims ->
+  (A = AValidCount -> is_plain0 fm = false) ->
+  ccube_report A N dims shape h f w ign fm = report_all fm (direct A N (map dim_dense dims) shape f w ign)
+  /\ xcube_report A N arrs shape h f w ign fm = Some (report_all fm (direct A N (map dim_dense dims) shape f w ign)).
+Proof. exact formats_agree. Qed.
+Print Assumptions C04_formats_agree.
+
+(* the excluded combination, stated for what it is: valid_count with the plain replacement 0 returns the partial
+   count (weighted count of the valid rows) in every cell, in both cubes, whatever the policy ... *)
+Theorem C04_valid_count_plain0_shortcut : forall N dims shape arrs h f w ign,
+  0 <= N -> Forall (dim_wf N) dims -> covers shape dims -> prodZ shape <= 4294967295 -> f <> FNone ->
+  Forall2 (fun a d => same_on N a (dim_dense d)) arrs dims ->
+  let partial := map (fun cell => map (fun fx => RVal (cell_value (w_get w) fx AValidCount
+                                                         (cell_rows_f N (map dim_dense dims) cell))) (fact_cols f))
+                     (all_cells shape) in
+  ccube_report AValidCount N dims shape h f w ign (FmtPlain q0) = partial
+  /\ xcube_report AValidCount N arrs shape h f w ign (FmtPlain q0) = Some partial.
+Proof. exact valid_count_plain0_shortcut. Qed.
+Print Assumptions C04_valid_count_plain0_shortcut.
+(* ... which, when missing values are ignored, IS the plain format of the ordinary cell *)
+Theorem C04_valid_count_plain0_ignore : forall wt fx rows,
+  report (FmtPlain q0) (direct_cell wt fx AValidCount true rows) = RVal (cell_value wt fx AValidCount rows).
+Proof. exact valid_count_plain0_ignore. Qed.
+Print Assumptions C04_valid_count_plain0_ignore.
+
+(* ---- non-vacuity: the C03 example cube; sum under both policies, all formats ---- *)
+Definition ex_dims : list dim := [mkdim ([(1, [0; 2; 4])], 0); mkdim ([(2, [2]); (0, [1; 3])], 1)].
+Definition ex_arrs : list (Z -> Z) := [arr_cat [1; 0; 1; 0; 1]; arr_cat [1; 0; 2; 0; 1]].
+Definition ex_fact : fact :=
+  FCols [MNaN [Some (q 1 2); Some (q 3 1); None; Some (q (-2) 1); Some (q 5 4)];
+         MPair [q 1 1; q 777 1; q 2 1; q 4 1; q 6 1] [true; false; true; true; true]].
+Definition ex_w : weights := WArr (MNaN [Some (q 1 1); Some (q 2 1); Some (q 0 1); None; Some (q 1 2)]).
+
+Example C04_hypotheses_hold :
+  0 <= 5 /\ Forall (dim_wf 5) ex_dims /\ covers [2; 3] ex_dims /\ prodZ [2; 3] <= 4294967295
+  /\ agg_fact_ok ASum ex_fact /\ in_shape [2; 3] [1; 1]
+  /\ Forall2 (fun a d => same_on 5 a (dim_dense d)) ex_arrs ex_dims.
+Proof.
+  split; [lia|]. split; [apply forall_dim_wf_b_sound; vm_compute; reflexivity|].
+  split; [apply covers_b_sound; vm_compute; reflexivity|]. split; [vm_compute; discriminate|].
+  split; [discriminate|]. split; [repeat constructor; lia|].
+  repeat constructor; intros r Hr;
+    assert (E : r = 0 \/ r = 1 \/ r = 2 \/ r = 3 \/ r = 4) by lia;
+    destruct E as [->|[->|[->|[->| ->]]]]; vm_compute; reflexivity.
+Qed.
+(* cell (0,0) = rows 1, 3: propagating -> both columns missing; ignoring -> column 0 keeps row 1 (3*2 = 6),
+   column 1 keeps nothing (row 1 invalid fact, row 3 missing weight) and stays missing *)
+Example C04_nontrivial_propagate :
+  list_eqb vm_eqb (ccube_cell ASum 5 ex_dims [2; 3] h_eval ex_fact ex_w false [0; 0]) [(q 6 1, true); (q0, true)] = true.
+Proof. vm_compute. reflexivity. Qed.
+Example C04_nontrivial_ignore :
+  list_eqb vm_eqb (ccube_cell ASum 5 ex_dims [2; 3] h_eval ex_fact ex_w true [0; 0]) [(q 6 1, false); (q0, true)] = true.
+Proof. vm_compute. reflexivity. Qed.
+Example C04_nontrivial_formats :
+  map (map rcell_obs) (ccube_report ASum 5 ex_dims [2; 3] h_eval ex_fact ex_w true (FmtPair (q (-3) 1)))
+  = map (map rcell_obs) (ccube_report ASum 5 ex_dims [2; 3] h_eval ex_fact ex_w true FmtNaN).
 Proof. vm_compute. reflexivity. Qed.
